@@ -66,6 +66,9 @@ func (a *ActionHeader) UnmarshalBinary(data []byte) error {
 
 // Decode Action types.
 func DecodeAction(data []byte) (Action, error) {
+	if len(data) < 4 {
+		return nil, errors.New("the []byte is too short to decode an action header")
+	}
 	t := binary.BigEndian.Uint16(data[:2])
 	var a Action
 	switch t {
@@ -111,6 +114,9 @@ func DecodeAction(data []byte) (Action, error) {
 		if v == NxExperimenterID {
 			a = DecodeNxAction(data)
 		}
+	}
+	if a == nil {
+		return nil, errors.New("unsupported action type")
 	}
 	err := a.UnmarshalBinary(data)
 	if err != nil {
@@ -215,7 +221,7 @@ func (a *ActionSetqueue) MarshalBinary() (data []byte, err error) {
 }
 
 func (a *ActionSetqueue) UnmarshalBinary(data []byte) error {
-	if len(data) != int(a.Len()) {
+	if len(data) < int(a.Len()) {
 		return errors.New("The []byte the wrong size to unmarshal an " +
 			"ActionEnqueue message.")
 	}
@@ -305,6 +311,9 @@ func (a *ActionDecNwTtl) MarshalBinary() (data []byte, err error) {
 }
 
 func (a *ActionDecNwTtl) UnmarshalBinary(data []byte) error {
+	if len(data) < int(a.Len()) {
+		return errors.New("the []byte is too short to unmarshal a full ActionDecNwTtl message")
+	}
 	return a.ActionHeader.UnmarshalBinary(data[:4])
 }
 
@@ -351,6 +360,9 @@ func (a *ActionPush) MarshalBinary() (data []byte, err error) {
 }
 
 func (a *ActionPush) UnmarshalBinary(data []byte) error {
+	if len(data) < int(a.Len()) {
+		return errors.New("the []byte is too short to unmarshal a full ActionPush message")
+	}
 	a.ActionHeader.UnmarshalBinary(data[:4])
 	a.EtherType = binary.BigEndian.Uint16(data[4:])
 	return nil
@@ -384,6 +396,9 @@ func (a *ActionPopVlan) MarshalBinary() (data []byte, err error) {
 }
 
 func (a *ActionPopVlan) UnmarshalBinary(data []byte) error {
+	if len(data) < int(a.Len()) {
+		return errors.New("the []byte is too short to unmarshal a full ActionPopVlan message")
+	}
 	a.ActionHeader.UnmarshalBinary(data[:4])
 	return nil
 }
@@ -419,6 +434,9 @@ func (a *ActionPopMpls) MarshalBinary() (data []byte, err error) {
 }
 
 func (a *ActionPopMpls) UnmarshalBinary(data []byte) error {
+	if len(data) < int(a.Len()) {
+		return errors.New("the []byte is too short to unmarshal a full ActionPopMpls message")
+	}
 	a.ActionHeader.UnmarshalBinary(data[:4])
 	a.EtherType = binary.BigEndian.Uint16(data[4:])
 	return nil
@@ -460,9 +478,19 @@ func (a *ActionSetField) MarshalBinary() (data []byte, err error) {
 func (a *ActionSetField) UnmarshalBinary(data []byte) error {
 	n := 0
 	err := a.ActionHeader.UnmarshalBinary(data[n:])
+	if err != nil {
+		return err
+	}
 	n += int(a.ActionHeader.Len())
 	err = a.Field.UnmarshalBinary(data[n:])
+	if err != nil {
+		return err
+	}
 	n += int(a.Field.Len())
+	// the action is padded to a multiple of 8 bytes on the wire
+	if len(data) < int(a.Len()) {
+		return errors.New("the []byte is too short to unmarshal a full ActionSetField message")
+	}
 
 	return err
 }
